@@ -371,9 +371,9 @@ def helper_spec_allows(case):
 
 
 def load_known():
-    """known-findings.json is the coordinator's; until the entries proposed in notes/C19.findings.json are merged there, read them too"""
+    """recorded findings: the committed known-findings.json only"""
     known = {k["id"]: k for k in vlib.load_known("C19")}
-    p = os.path.join(vlib.VERIF, "notes", "C19.findings.json")
+    p = ""      # only the committed known-findings.json is consulted at run time
     if os.path.exists(p):
         for k in json.load(open(p)):
             if k.get("property") == "C19" and k.get("status") == "known":
@@ -447,7 +447,7 @@ def run(ctx):
         "time: only the activation timeout is real (%d ms in timed histories, 10 min otherwise); histories that differ are re-run once before they are reported" % 1500,
         "the ghost outputs OGone (entry of a disconnected caller discarded) are not observable and not compared",
         "the helper is observed through dbus-daemon-launch-helper-for-tests (same activation-helper.c, ACTIVATION_LAUNCHER_TEST: no clearenv, permission check and setuid compiled out)",
-        "known-finding entries are read from notes/C19.findings.json until merged into known-findings.json",
+        "known-finding entries are read from known-findings.json only",
     ]
     if stats["aborted"] > max(3, len(res) // 10):
         rep.violation("%d of %d activation histories could not be replayed on the daemon (harness aborted)" % (stats["aborted"], len(res)),
